@@ -48,18 +48,27 @@ def prove(ctx: Ctx, module: str, theorems: list[str], timeout: int = 1500) -> di
                         todo.append(d / f"{m}.tla")
                         break
         t0 = time.time()
-        p = subprocess.run(["tlapm", "--cleanfp", "-I", str(STDLIB), src.name], cwd=work, capture_output=True,
-                           text=True, timeout=timeout)
-        out = p.stdout + p.stderr
+        # back-end time limits are wall-clock limits: on a loaded machine an obligation that normally takes a second
+        # can exceed them. The first pass starts from scratch with doubled limits; if obligations remain, further
+        # passes re-try only those (the fingerprints of this run keep the discharged ones) with much longer limits.
+        attempts = [["--cleanfp", "--stretch", "2"], ["--stretch", "8", "--threads", "4"],
+                    ["--stretch", "30", "--threads", "2"]]
+        out, m, p = "", None, None
+        for n_try, extra in enumerate(attempts, start=1):
+            p = subprocess.run(["tlapm", *extra, "-I", str(STDLIB), src.name], cwd=work, capture_output=True,
+                               text=True, timeout=timeout)
+            out = p.stdout + p.stderr
+            m = re.search(r"All (\d+) obligations? proved", out)
+            if p.returncode == 0 and m:
+                break
         wall = time.time() - t0
-        m = re.search(r"All (\d+) obligations? proved", out)
         if p.returncode != 0 or not m:
             failed = re.search(r"(\d+)/(\d+) obligations failed", out)
             raise MachineryError(f"tlapm did not discharge {module}: " +
                                  (f"{failed.group(1)} of {failed.group(2)} obligations failed" if failed else "error") +
                                  "\n" + out[-3000:])
         res = {"module": f"spec/proofs/{module}.tla", "theorems": theorems, "obligations_proved": int(m.group(1)),
-               "wall_s": round(wall, 1), "backends": "tlapm 1.6.0-pre (SMT, Zenon, Isabelle, PTL)"}
+               "wall_s": round(wall, 1), "passes": n_try, "backends": "tlapm 1.6.0-pre (SMT, Zenon, Isabelle, PTL)"}
         ctx.cov.setdefault("tlaps_proofs", []).append(res)
         ctx.log(f"TLAPS: {module}: all {m.group(1)} proof obligations discharged in {wall:.0f}s - "
                 f"{', '.join(theorems)} hold for every value of the constants")
